@@ -21,6 +21,7 @@ sys.path.insert(0, str(Path(__file__).resolve().parent.parent / 'translate'))
 import lib  # noqa
 import c13_gen as gen  # noqa
 import c14_e2n  # noqa
+import c14_n2e  # noqa
 from c13 import mesh_at, apply_mod_py, new_connectivity, rebuild_history, strip  # noqa
 
 PID = 'C14'
@@ -85,6 +86,7 @@ VARIANT = {'by_id': False}
 EXTRA_MODES = []        # strings the code compares `mode` with besides 'effective' / 'mean'
 PROG_FAIL = set()       # (case id, query index) where the translated program differs from the impl
 TIE = {'mode': 'T', 'reason': ''}
+TIE_N2E = {'mode': 'T', 'reason': ''}
 
 
 # --------------------------------------------------------------- geometry
@@ -504,6 +506,51 @@ def coq_check(ctx, cases, results, name):
     return out
 
 
+HEADER_N2E = '''From Coq Require Import ZArith QArith String List.
+Import ListNotations.
+From FV.C13 Require Import Model.
+From FV.C14 Require Import Model N2EProg CorrN2E.
+Open Scope string_scope.
+Set Printing Width 100000.
+Set Printing Depth 100000.
+'''
+
+
+def coq_check_n2e_prog(ctx, cases, results, name):
+    """translator validation for convert_nodal2elemental: the interpreter on the translated
+    program (gen/N2EProg.v), evaluated in Coq on every n2e call -> [(case id, query index)]
+    that differ from the implementation; None when a file does not compile"""
+    b = lambda x: 'true' if x else 'false'  # noqa
+    entries = []
+    for c in cases:
+        rs = results[c['id']]
+        for qi, q in enumerate(c['queries']):
+            if q['kind'] != 'n2e':
+                continue
+            r = rs[qi]
+            three = len(r.get('orig_shape') or []) == 3
+            lit = (f"(mkncall {b(q.get('by_name'))} (Some {b(q.get('avg', True))}) "
+                   f"(Some {b(q.get('ravel', False))}) {field_lit(q['data'])} {len(q['data'][0])} {b(three)}, "
+                   f"{qlit(tol_of(q))}, {res_to_coq(r)})")
+            entries.append((c, qi, mesh_at(c, qi), lit))
+    bad = []
+    for fi in range(0, len(entries), 150):
+        chunk = entries[fi:fi + 150]
+        items = [f"({k}%nat, check_ncase {gen.mesh_to_coq(mesh, lib)} [{lit}])"
+                 for k, (c, qi, mesh, lit) in enumerate(chunk)]
+        txt = HEADER_N2E + 'Definition cases : list (nat * list nat) := [\n' + ';\n'.join(items) + '].\n'
+        txt += 'Goal True. idtac "@@ failing". Abort.\n'
+        txt += ('Eval vm_compute in map fst (filter (fun c => match snd c with [] => false | _ => true end) '
+                'cases).\n')
+        rc, o, err = ctx.coq_eval(f'{name}_n2eprog_{fi // 150}', txt, timeout=900)
+        if rc != 0:
+            ctx.log('n2e translator-validation file failed to compile:', err[-600:])
+            return None
+        t = lib.parse_marked(o).get('failing', '').split(': list')[0].replace('%nat', '')
+        bad += [(chunk[int(x)][0]['id'], chunk[int(x)][1]) for x in re.findall(r'\d+', t)]
+    return bad
+
+
 # --------------------------------------------------------- case generation
 def queries_for(rng, mesh):
     nodes = mesh['nodes']
@@ -552,6 +599,13 @@ def queries_for(rng, mesh):
         qs.append(q)
         qs.append({'kind': 'e2n', 'mode': 'effective', 'weight': 'false', 'order1': o,
                    'values': values(False)})
+    # calc_average=True together with ravel=True (the average wins): a configuration of the
+    # translated table; private generator so that the main stream is not shifted
+    import random as _random
+    r2 = _random.Random(repr([r[0] for r in nodes]) + 'avg+ravel')
+    qs.append({'kind': 'n2e', 'avg': True, 'ravel': True, 'by_name': r2.random() < 0.3,
+               'data': [[r2.randint(-9, 9) for _ in range(2)] for _ in nodes],
+               'dtype': r2.choice(['float', 'int'])})
     inverted = bool(mesh.get('tags', {}).get('inverted'))
     if inverted:
         # not "positive elements": raise_negative_volume=True must refuse, False uses the signed metric
@@ -958,6 +1012,37 @@ def main(ctx):
                     'E2NProg.v: ' + TIE['reason'][:200] + ']'
         ctx.trusted.append('baseline table coq/C14/gen_baseline/E2NProg.v as the hand model of the '
                            'straight-line part of convert_elemental2nodal (' + TIE['reason'][:300] + ')')
+    # ---- tie T for convert_nodal2elemental (second props file; same policy)
+    gen_n = lib.COQ / 'C14' / 'gen' / 'N2EProg.v'
+    base_n = lib.COQ / 'C14' / 'gen_baseline' / 'N2EProg.v'
+    try:
+        text, info = c14_n2e.translate(lib.REPO)
+        lib.write_if_changed(gen_n, text)
+        ctx.sources['signal_processor.py:' + '+'.join(info['methods'])] = info['sha']
+        ctx.notes['n2e_translated'] = {'methods_read': info['methods'], 'defaults': info['defaults']}
+    except c14_e2n.Untranslatable as e:
+        TIE_N2E.update(mode='H', reason=f'translator could not read convert_nodal2elemental: {e}')
+        ctx.log(TIE_N2E['reason'], '-> baseline table')
+        lib.write_if_changed(gen_n, base_n.read_text())
+    n_before = len(ctx.obligations)
+    ok_n, log_n = ctx.build_props('C14/PropsN2E.v', extra_targets=['C14/CorrN2E.vo'], scan_dirs=scan)
+    if not ok_n and TIE_N2E['mode'] == 'T':
+        TIE_N2E.update(mode='H', reason='the program read from convert_nodal2elemental is not the '
+                       'reference table / PropsN2E.v does not build against it')
+        ctx.log(TIE_N2E['reason'], '-> baseline table')
+        lib.write_if_changed(gen_n, base_n.read_text())
+        del ctx.obligations[n_before:]
+        ok_n, log_n = ctx.build_props('C14/PropsN2E.v', extra_targets=['C14/CorrN2E.vo'], scan_dirs=scan)
+    if TIE_N2E['mode'] != 'T':
+        for o in ctx.obligations[n_before:]:
+            if 'translated' in o['name']:
+                o['note'] = (o.get('note') or '') + ' [about the baseline table coq/C14/gen_baseline/' \
+                    'N2EProg.v: ' + TIE_N2E['reason'][:200] + ']'
+        ctx.trusted.append('baseline table coq/C14/gen_baseline/N2EProg.v as the hand model of the '
+                           'dispatch of convert_nodal2elemental (' + TIE_N2E['reason'][:300] + ')')
+    if not ok_n:
+        log = log + log_n
+    proof_ok = proof_ok and ok_n
     if not proof_ok:
         ctx.notes['build_log_tail'] = log[-1500:]
         lib.coq_make(['C14/Corr.vo'])
@@ -1017,6 +1102,36 @@ def main(ctx):
                      if len(c['mesh']['nodes']) <= 6 else None)
     ctx.count('oracle:unsupported-by-femio', unsupported)
     n_oracle, n_corr = report(ctx, cases, ev)
+    nbad = coq_check_n2e_prog(ctx, cases, results, 'corr') if proof_ok or \
+        (lib.COQ / 'C14' / 'CorrN2E.vo').exists() else None
+    if nbad is None:
+        n_corr += 1
+        ctx.violation('correspondence', {}, 'the translated n2e program evaluates', 'coqc failed',
+                      'translator validation C14 (CorrN2E.run_ncall)', found_input=False,
+                      signature={'kind': 'correspondence', 'fn': 'n2e', 'defect': 'n2e-program-eval-failed'})
+    else:
+        for cid, qi in nbad[:5]:
+            c = next(x for x in cases if x['id'] == cid)
+            q = c['queries'][qi]
+            n_corr += 1
+            ctx.violation('correspondence',
+                          {'mesh': describe(mesh_at(c, qi)), 'query': strip(q),
+                           'shared_object': bool(c.get('shared')),
+                           'earlier_steps_on_the_same_object':
+                               [strip(x) for x in c['queries'][:qi]] if c.get('shared') else []},
+                          'interpreter on the translated program of convert_nodal2elemental = implementation',
+                          summarise(results[cid][qi]), 'translator validation C14 (CorrN2E.run_ncall)',
+                          found_input=any(x == qi for x, _ in ev[1][cid]),
+                          signature={'kind': 'correspondence', 'fn': 'n2e', 'defect': 'translated-program-differs',
+                                     'avg': q.get('avg', True), 'ravel': q.get('ravel', False),
+                                     'by_name': bool(q.get('by_name'))},
+                          what='the program translated from convert_nodal2elemental and the implementation differ')
+    ctx.notes['tie_n2e_program'] = (
+        'T (convert_nodal2elemental executed symbolically on this tree -> coq/C14/gen/N2EProg.v; '
+        'C14_n2e_program_translated checks it against the reference table; the interpreter on it is '
+        'evaluated in Coq on every n2e call)' if TIE_N2E['mode'] == 'T' else
+        f"H ({TIE_N2E['reason']}; baseline table + the correspondence of the hand model)")
+    ctx.notes['n2e_translated_program_disagreements'] = len(nbad or [])
     ctx.corr = {'cases': nq, 'meshes': len(cases), 'corpus_meshes': n_corpus,
                 'disagreements': n_corr, 'tolerance': f'2^-{TOL_BITS} * (1 + max|input|)'}
     ctx.notes['tie_e2n_program'] = (
